@@ -98,6 +98,10 @@ class LinInterp(eir.Interp):
                 r, q = L.wrap(x, n, "s")
                 return self._norm(q)
             if op == "shl":
+                # (x << n) mod 2^bits = (x mod 2^(bits-n)) * 2^n: shares the split of x at bit (bits-n) with a later `x >> (bits-n)`
+                if x.lo >= 0 and x.hi < m:
+                    r, k = L.wrap(x, bits - n, "s")
+                    return self._norm(L.scale(r, 1 << n))
                 r, k = L.wrap(L.scale(x, 1 << n), bits, "s")
                 return self._norm(r)
             raise ExecError("unsupported", "ashr on affine value")
@@ -145,6 +149,23 @@ class LinInterp(eir.Interp):
             L.solver.add(zr >= 0, zr <= d - 1)
             return self._norm(qf if op == "udiv" else rem)
         raise ExecError("unsupported", "binop %s on affine values" % op)
+
+    def intrinsic(self, name, args):
+        import re as _re
+        m = _re.match(r"llvm\.fsh(l|r)\.i(\d+)", name)
+        if m and self._has_lin(args[0], args[1]) and is_conc(args[2]):
+            # funnel shift by a constant: ((a:b) << c) >> bits  resp.  (a:b) >> c, built from the same splits as plain shifts
+            bits = int(m.group(2))
+            c = args[2] % bits
+            a, b = self.lv(args[0]), self.lv(args[1])
+            if c == 0:
+                return self._norm(a if m.group(1) == "l" else b)
+            L = self.L
+            k = bits - c if m.group(1) == "l" else c          # split point: a keeps its low k bits, b gives its high bits-k bits
+            alow = L.wrap(a, k, "s")[0]
+            bhigh = L.wrap(b, k, "s")[1]
+            return self._norm(L.add(L.scale(alow, 1 << (bits - k)), bhigh))
+        return eir.Interp.intrinsic(self, name, args)
 
     def _trailing_zero_bits(self, u):
         if u.is_const():
